@@ -247,6 +247,13 @@ Proof.
 Qed.
 Print Assumptions c07_set_mates_wellformed.
 
+(* the reader's check "the downstream mate must be inside the slice" (/repo 21bfe86: InvalidData
+   "invalid mate distance") never fires on a slice written by set_mates + write_mate *)
+Theorem c07_written_slice_resolves : forall rep rs,
+  Forall fresh rs -> slice_roundtrip_gen rep rs <> MReadErr.
+Proof. exact written_slice_resolves. Qed.
+Print Assumptions c07_written_slice_resolves.
+
 (* a slice of two records that share a name (both segmented, not secondary): the reader returns
    exactly the recomputed columns, and they are the written ones iff the pair is pair_consistent -
    the decidable description of the class cram-intra-slice-mate-fields-recomputed for a pair *)
